@@ -11,13 +11,19 @@
                  with and without a query, ending in '?', '&', a letter, pre-escaped, non-ASCII, empty)
    key-literal : join "q="  with join one of  "" ? & &amp;   (second slot: & or &amp; then "r=")
    v, w        : strings over the URL token alphabet of MC_Escapers
-   and keeps those in which {{ v }} is a query value slot according to the REFERENCE (IsSlot).
+   and keeps those in which {{ v }} is a query value slot according to the REFERENCE (IsSlot); and,
+   for the attribute srcset (a comma-separated list of "URL descriptor"),
+
+        first-candidate " 1x, "  prefix  key-literal  {{ v }}  [ " 2x" ]
+
+   first-candidate : literal URL, a path-position value, or either with a query value slot "x=" {{ 1 }}.
    Model check: the transcription of renderer.Text / renderer.showInURL (RSteps of Escapers.tla)
    followed by the reference (OkProg) holds for every program; the completed programs are exported
    (cases_url.ndjson) and replayed into real templates. *)
 EXTENDS Escapers, TLC, Json, FiniteSets, SequencesExt
 CONSTANTS V2All,      \* TRUE: every head gets every value of <= 2 tokens (FALSE: core heads only, the others <= 1 token)
-          TwoAll      \* TRUE: every head is continued by a tail / a second slot (FALSE: core heads only)
+          TwoAll,     \* TRUE: every head is continued by a tail / a second slot (FALSE: core heads only)
+          SetAll      \* TRUE: every head is also the second URL of a srcset (FALSE: core heads only)
 
 \* ---- alphabets
 Tok == { <<37>>, <<52>>, <<97>>, <<103>>, <<43>>, <<32>>, <<38>>, <<63>>, <<35>>,      \* % 4 a g + SP & ? #
@@ -45,6 +51,16 @@ Tails == { <<38,121,61,50>>, <<38,97,109,112,59,121,61,50>>, <<35,102>> }       
 KeyQ == <<113, 61>>                                                                     \* q=
 KeyR == <<114, 61>>                                                                     \* r=
 
+\* srcset: what precedes the second URL (the first candidate, then its descriptor and the comma)
+Sep1 == <<32, 49, 120, 44, 32>>                                                         \* " 1x, "
+Desc2 == <<32, 50, 120>>                                                                \* " 2x"
+FirstCands ==
+  { <<TSeg(<<47,97>>)>>, <<VSeg(<<47,115>>)>>, <<VSeg(<<47,115,63,108,61,101,110>>)>>, <<VSeg(<<47,115,63>>)>>,       \* /a  {{/s}}  {{/s?l=en}}  {{/s?}}
+    <<VSeg(<<47,115,63,108,61,101,110,38>>)>>,                                                                        \* {{/s?l=en&}}
+    <<TSeg(<<47,97,63,120,61>>), VSeg(<<49>>)>>,                                                                      \* /a?x={{1}}
+    <<VSeg(<<47,115,63,108,61,101,110>>), TSeg(<<38,120,61>>), VSeg(<<49>>)>>,                                        \* {{/s?l=en}}&x={{1}}
+    <<VSeg(<<47,115>>), TSeg(<<63,120,61>>), VSeg(<<49>>)>> }                                                         \* {{/s}}?x={{1}}
+
 \* ---- prefixes (no key literal yet)
 Pres ==
   { <<>> } \cup { <<VSeg(b)>> : b \in Bases } \cup { <<TSeg(l)>> : l \in PreLits }
@@ -60,37 +76,50 @@ CorePres ==
 ASSUME CorePres \subseteq Pres
 \* literal text directly after literal text is ONE text of the template
 AddLit(a, t) == IF Len(a) > 0 /\ a[Len(a)].k = "t" THEN [a EXCEPT ![Len(a)] = TSeg(a[Len(a)].b \o t)] ELSE Append(a, TSeg(t))
+Join(a, b) == IF Len(b) > 0 /\ b[1].k = "t" THEN AddLit(a, b[1].b) \o Tail(b) ELSE a \o b
 \* a program under construction: n = slots filled (3 = closed by a tail), open = ends with a key literal
-RawHeads == { [segs |-> AddLit(a, j \o KeyQ), core |-> a \in CorePres, n |-> 0, open |-> TRUE] : a \in Pres, j \in Joins }
+RawHeads == { [segs |-> AddLit(a, j \o KeyQ), core |-> a \in CorePres, n |-> 0, open |-> TRUE, set |-> FALSE] : a \in Pres, j \in Joins }
 \* kept: those where the value after the key literal is a query value slot for the reference
-Heads == { h \in RawHeads : IsSlot(Append(h.segs, VSeg(<<>>)), Len(h.segs) + 1) }
+SlotNext(h) == IsSlot(Append(h.segs, VSeg(<<>>)), h.set, Len(h.segs) + 1)
+HrefHeads == { h \in RawHeads : SlotNext(h) }
+SetHeads == { h \in { [segs |-> Join(AddLit(f, Sep1), g.segs), core |-> g.core, n |-> 0, open |-> TRUE, set |-> TRUE] :
+                      f \in FirstCands, g \in {x \in HrefHeads : x.core \/ SetAll} } : SlotNext(h) }
+Heads == HrefHeads \cup SetHeads
 Ext(p, q1, q2) ==
   IF p.open
-  THEN { [segs |-> Append(p.segs, VSeg(v)), core |-> p.core, n |-> p.n + 1, open |-> FALSE] :
-         v \in (IF p.n = 1 THEN q1 ELSE IF p.core \/ V2All THEN q2 ELSE q1) }
+  THEN { [p EXCEPT !.segs = Append(p.segs, VSeg(v)), !.n = p.n + 1, !.open = FALSE] :
+         v \in (IF p.n = 1 \/ p.set THEN q1 ELSE IF p.core \/ V2All THEN q2 ELSE q1) }
+  ELSE IF p.n = 1 /\ p.set
+  THEN { [p EXCEPT !.segs = Append(p.segs, TSeg(Desc2)), !.n = 3] }
   ELSE IF p.n = 1 /\ (p.core \/ TwoAll) /\ p.segs[Len(p.segs)].b \in QC1
-  THEN { [segs |-> Append(p.segs, TSeg(m \o KeyR)), core |-> p.core, n |-> 1, open |-> TRUE] : m \in Mids }
-       \cup { [segs |-> Append(p.segs, TSeg(t)), core |-> p.core, n |-> 3, open |-> FALSE] : t \in Tails }
+  THEN { [p EXCEPT !.segs = Append(p.segs, TSeg(m \o KeyR)), !.open = TRUE] : m \in Mids }
+       \cup { [p EXCEPT !.segs = Append(p.segs, TSeg(t)), !.n = 3] : t \in Tails }
   ELSE {}
 
 VARIABLE prog
 Init == prog \in Heads
 Next == \E x \in Ext(prog, QV1, QV2) : prog' = x
 
-\* the transcribed renderer, then the reference: every judged slot decodes back to the value shown
-ProgRoundTrip == OkProg(prog.segs, ModelProg(prog.segs))
+\* the transcribed renderer (with the srcset fix), then the reference: every judged slot decodes back
+\* to the value shown ...
+ProgRoundTrip == OkProg(prog.segs, prog.set, ModelProg(prog.segs, prog.set, TRUE))
+\* ... and the transcription of the code as found can fail only in a srcset with a comma in literal text
+\* (the two variants are the same function when set = FALSE or no literal text has a comma)
+ProgAsFoundExtent == (prog.set /\ CommaLit(prog.segs)) \/ ModelProg(prog.segs, prog.set, FALSE) = ModelProg(prog.segs, prog.set, TRUE)
 \* non-vacuity: the first slot of every program IS judged by the reference (a second slot is not when the
 \* first value has a '#': it is in the fragment then)
-ProgJudged == prog.n >= 1 => JudgedSlots(prog.segs) # {}
+ProgJudged == prog.n >= 1 => JudgedSlots(prog.segs, prog.set) # {}
 
 (* ---------- case export: the same Heads / Ext, three rounds ---------- *)
-Cases ==
+\* (an operator with a parameter: TLC evaluates zero-argument constant definitions at start-up, this
+\*  one would be built twice)
+Cases(first) ==
   LET q1 == QV1
       q2 == QV2
       P1 == UNION {Ext(h, q1, q2) : h \in Heads}
       P2 == UNION {Ext(p, q1, q2) : p \in P1}
       P3 == UNION {Ext(p, q1, q2) : p \in P2}
-      S  == SetToSeq({p.segs : p \in {x \in P1 \cup P2 \cup P3 : ~x.open}})
-  IN [i \in 1..Len(S) |-> [id |-> 2000000 + i, segs |-> S[i]]]
-ASSUME ndJsonSerialize("cases_url.ndjson", Cases)
+      S  == SetToSeq({[at |-> IF p.set THEN "srcset" ELSE "href", segs |-> p.segs] : p \in {x \in P1 \cup P2 \cup P3 : ~x.open}})
+  IN [i \in 1..Len(S) |-> [id |-> first + i - 1, at |-> S[i].at, segs |-> S[i].segs]]
+ASSUME ndJsonSerialize("cases_url.ndjson", Cases(2000001))
 =============================================================================
